@@ -698,7 +698,7 @@ func RunCheck(prop, tier string) int {
 	cov := map[string]any{
 		"evaluations":                       total.Evaluations,
 		"distinct_nontrivial":               total.Nontrivial,
-		"distinct_nontrivial_rule":          "number of distinct (program, crash point) cases whose directory image at recovery (names, kinds and contents of every file, FNV-64) differs from BOTH the image before the interrupted operation started and the image after it completed in the crash-free run of the same program",
+		"distinct_nontrivial_rule":          "number of distinct (program, crash point) cases whose directory image at recovery (names, kinds and contents of every file, FNV-64) differs from BOTH the image before the interrupted operation started and the image after it completed in the crash-free run of the same program (snapshot directories are compared by rank, not by their wall-clock names; the pre-existing snapshots of C13, hard links to a template that is verified unmodified at the end of every worker, by rank only)",
 		"programs":                          units,
 		"programs_enumerated":               unitsTotal,
 		"programs_by_suite":                 total.Units,
